@@ -57,6 +57,7 @@ class Cube:
     per_path_timeout: float = 20.0
     role: str = "check"  # "check" | "twin" (reachability witness: must be refuted)
     group: str = ""  # evidence grouping (e.g. the pass / site / kernel name)
+    allow_empty: bool = False  # the cube fixes a prefix of choices that may be infeasible (nothing to explore is then fine)
     max_paths: int = 10**9
 
 
@@ -287,6 +288,7 @@ def main(argv=None) -> int:
     seen_replay: Dict[str, dict] = {}
     class_count: Dict[str, int] = {}
     class_repro: Dict[str, int] = {}
+    empty_by_group: Dict[str, List[str]] = {}
     skipped_same_class = 0
 
     for cube, r in zip(spec.cubes, results):
@@ -353,6 +355,10 @@ def main(argv=None) -> int:
                                 f"unknown={r['unknown']}, stop={r['stop_reason']}): nothing decided")
             r["confirmed"] = False
             continue
+        if r["held"] + r.get("violating_paths", 0) == 0 and cube.allow_empty:
+            empty_by_group.setdefault(cube.group, []).append(cube.name)
+            r["confirmed"] = True  # infeasible prefix: exhausted, nothing to decide
+            continue
         if r["held"] + r.get("violating_paths", 0) == 0:
             harness_errors.append(f"{cube.name}: no path reached the oracle (paths={r['paths']}, ignored={r['ignored']}, "
                                   f"unknown={r['unknown']}): the cube is vacuous")
@@ -366,6 +372,12 @@ def main(argv=None) -> int:
             inconclusive.append(
                 f"{cube.name}: not exhausted (paths={r['paths']}, unknown={r['unknown']}, stop={r['stop_reason']}, {r.get('unknown_reasons')})"
             )
+
+    # a whole group of prefix-sharded cubes without a single path reaching the oracle is vacuous
+    for grp, names in empty_by_group.items():
+        members = [(c, r) for c, r in zip(spec.cubes, results) if c.group == grp and c.role == "check" and not r.get("error")]
+        if members and all(r["held"] + r.get("violating_paths", 0) == 0 for _, r in members):
+            harness_errors.append(f"group {grp!r}: none of its {len(members)} cubes reached the oracle: vacuous")
 
     # ---- evidence
     checks = [(c, r) for c, r in zip(spec.cubes, results) if c.role == "check" and not r.get("error")]
@@ -419,6 +431,7 @@ def main(argv=None) -> int:
             "cubes_confirmed": sum(1 for _, r in checks if r.get("confirmed")),
             "reachability_twins": twin_results,
             "spurious_models_filtered": spurious,
+            "infeasible_prefix_cubes": sum(len(v) for v in empty_by_group.values()),
             "counterexamples_replayed": replays_done,
             "candidates_not_replayed_same_class": skipped_same_class,
             "known_findings_matched": list(known_hits.values()),
